@@ -46,4 +46,18 @@ for _p, _t in [("C06", "statement answers vs reference model, each history execu
                      assumptions=["the input dimension (schemas, rows, predicates) is sampled by a generator; the simulator owns the environment dimension (statistics timing, plan tie-breaks, pool size)",
                                   "parenthesised predicates and multi-row VALUES lists are outside the supported SQL subset and are not generated",
                                   "NULL compares as unknown (row not selected) in the reference model"])
+UNIT_RULE = ("one evaluation = one seeded operation sequence (a pure function of the seed and its length) against the real component "
+             "and a small reference model, with the invariants checked after every operation; distinct = distinct operation/outcome "
+             "sequence; every run is non-trivial (all runs execute operations); a failing sequence is reduced by bisection on its length")
+PROPS["C15"] = dict(driver="pagesim", budget=dict(quick=30, thorough=600), chunk=200, rule=UNIT_RULE + "; page layout invariants (M-PAGE) are additionally evaluated on the heap pages produced by every SQL-level simulation",
+    technique="seeded operation sequences on a single TablePage in recovery-phase mode against a slot->bytes model, layout invariants on raw page bytes after every operation (simulation adds M-PAGE on page histories produced by interleaved transactions, rollbacks and redo/undo in the other checks)",
+    assumptions=["the property has no schedule or fault in its statement: the dedicated driver is input generation; what the simulator adds is M-PAGE over the page histories of the crash/SQL simulations (counted there as mpage_pages_checked)",
+                 "a shrinking in-place update outside rollback mode is refused by design (the caller relocates the row)"])
+PROPS["C16"] = dict(driver="locksim", budget=dict(quick=30, thorough=600), chunk=400, rule=UNIT_RULE,
+    technique="seeded request sequences on the real LockManager/TransactionManager against an abstract lock table (sequential part; the concurrent part runs under the controlled scheduler)",
+    assumptions=["LockUpgrade is only requested when the model says the caller holds the shared lock (the API's stated precondition)"])
+PROPS["C13"] = dict(driver="bpmsim", budget=dict(quick=30, thorough=600), chunk=200, rule=UNIT_RULE,
+    technique="seeded new/fetch/modify/unpin/flush/deallocate sequences on the real BufferPoolManager (file-backed and in-memory disk managers, pools of 1-8 frames) against a pageID->bytes model",
+    assumptions=["operations the pool must refuse (all frames pinned) are generated only when the model says a frame is available, so a nil page or a 'Victim' panic means a lost frame",
+                 "a user unpins its own pins before deallocating a page"])
 
